@@ -6,11 +6,36 @@ from __future__ import annotations
 from ..interp import const
 from ..model import AnalysisError
 from ..rows import GenRule, effect_rows, helper_closure
-from ..terms import K, T, destruct, subterms, tv
+from ..terms import K, T, destruct, norm, subst, subterms, tv
 
 CN = "urllib3.connection"
 HC = f"{CN}.HTTPConnection"
 PUBLIC_OUT = ("putrequest", "putheader", "endheaders", "send")
+
+
+class _View:
+    """a row seen through a renaming of terms (positional and attribute access to the classification result name one thing)"""
+
+    def __init__(self, r, canon):
+        self._r, self._canon = r, canon
+        self.st = r.st
+        self.facts = {canon(k): v for k, v in r.st.facts.items()}
+        self.ts = {(tuple(canon(x) if isinstance(x, str) else x for x in k) if isinstance(k, tuple) else k): v for k, v in r.st.ts.items()}
+
+    def truth(self, sym):
+        return self.facts.get(sym, (None, None))[0]
+
+    def is_none(self, sym):
+        return self.facts.get(sym, (None, None))[1]
+
+    def isinst(self, sym, *fragments):
+        for key, v in self.ts.items():
+            if isinstance(key, tuple) and key and key[0] == "isinst" and key[1] == sym and all(any(fr in (c or "") for c in key[2]) for fr in fragments):
+                return v
+        return None
+
+    def witness(self):
+        return self._r.witness()
 
 
 class ReqRow:
@@ -35,16 +60,24 @@ class ReqRow:
                 self.btc_args = [a for a in e[2:] if isinstance(a, str)]
         self.CH = f"{self.btc}.chunks" if self.btc else None
         self.CL = f"{self.btc}.content_length" if self.btc else None
-        self.chunks_none = r.is_none(self.CH) if self.CH else None
-        self.cl_none = r.is_none(self.CL) if self.CL else None
+        btc = self.btc
+
+        def canon(t):
+            if not btc or not isinstance(t, str) or btc not in t:
+                return t
+            return subst(subst(t, T("idx", btc, "0"), f"{btc}.chunks"), T("idx", btc, "1"), f"{btc}.content_length")
+        self.canon = canon
+        self.v = _View(r, canon)
+        self.chunks_none = self.v.is_none(self.CH) if self.CH else None
+        self.cl_none = self.v.is_none(self.CL) if self.CL else None
         # ---- output events in order
         self.out = []
         for e in r.ev:
             if e[0] != "call":
                 continue
             name = e[1]
-            loop = next((x[1:] for x in e[2:] if isinstance(x, tuple) and x and x[0] == "in"), ())
-            args = [a for a in e[2:] if isinstance(a, str)]
+            loop = next((tuple(canon(y) for y in x[1:]) for x in e[2:] if isinstance(x, tuple) and x and x[0] == "in"), ())
+            args = [canon(a) for a in e[2:] if isinstance(a, str)]
             if name.startswith("self.") and name.count(".") == 1:
                 self.out.append((name[5:], args, loop))
             elif name.startswith(("self.sock", "super.")):
@@ -95,6 +128,10 @@ def key_set_ok(hk):
     if op not in ("frozenset", "set") or len(a) != 1:
         return False
     op2, a2 = destruct(a[0])
+    if op2 in ("set", "list", "frozenset") and len(a2) == 1:
+        op2, a2 = destruct(a2[0])  # frozenset(set(...)): a set built first
+    if op2 == "rep":
+        op2 = "gen"  # built by an explicit loop adding one element per key
     if op2 not in ("gen", "listcomp", "setcomp") or len(a2) != 2:
         return False
     elt, src = a2
@@ -182,6 +219,32 @@ def check_framing(ctx, R1, R2):
     n2 = 0
     TEMPLATE = K(b"%x\r\n%b\r\n")
     TERM = K(b"0\r\n\r\n")
+
+    def _recognised_send(x, a, loop):
+        if not a:
+            return False
+        if a == [TERM]:
+            return True
+        each = T("each", x.CH) if x.CH else None
+        X = {each, T("encode", each, K("utf-8"))} if each else set()
+        op, aa = destruct(a[0])
+        if op == "mod" and len(aa) == 2 and aa[0] == TEMPLATE:
+            return True
+        return a[0] in X
+
+    foreign = any(not _recognised_send(x, a, loop) for x in rows for a, loop in x.sends())
+    if foreign:
+        # the body is sent by an algorithm the rule does not follow (e.g. a lazy generator pipeline): the framing *headers* are
+        # still decided row by row below; for the bytes sent only provenance is decided (DESIGN 13.2)
+        bad = None
+        for x in rows:
+            for a, loop in x.sends():
+                for t_ in a:
+                    at = {y for y in subterms(t_) if destruct(y)[0] is None and y.startswith(("p:", "self."))}
+                    if not at <= {"p:body", "p:method", "self.blocksize"}:
+                        bad = (t_, x)
+        ctx.ob(R2, fi.qual, "body-sending idiom not recognised: everything sent after the headers derives from the classified body and constants (provenance only)", bad is None,
+               "" if bad is None else f"send({bad[0][:80]})", witness=bad[1].r.witness() if bad else None, node=fi.node)
     for x in rows:
         w = x.r.witness()
         ch, has_cl, has_te = x.chunked, x.has.get("content-length"), x.has.get("transfer-encoding")
@@ -214,7 +277,13 @@ def check_framing(ctx, R1, R2):
             if f == "transfer-encoding":
                 okf = okf and v == K("chunked")
             else:
-                okf = okf and v == T("str", x.CL)
+                okf = okf and v in (T("str", x.CL), x.CL, T("fstr", x.CL), T("format", x.CL))
+        if foreign:
+            key = (desc, tuple(framing), okf)
+            if _once(seen, key):
+                ctx.ob(R1, fi.qual, f"[{desc}] emits {[f for f, _ in framing] or 'no framing header'}", okf,
+                       "" if okf else f"expected framing {want_framing}: the message would carry both/neither framing", witness=w, node=fi.node)
+            continue
         okm = len(terms) == (1 if want_chunked else 0) and all(a == [TERM] for a, _ in terms) and (not want_chunked or (sends and not sends[-1][1]))
         modes = []
         for a, loop in body_sends:
@@ -232,7 +301,7 @@ def check_framing(ctx, R1, R2):
         each = T("each", x.CH) if x.CH else None
         for a, loop in body_sends:
             n2 += 1
-            is_str = x.r.isinst(each, "str")
+            is_str = x.v.isinst(each, "str")
             X = T("encode", each, K("utf-8")) if is_str is True else each
             op, aa = destruct(a[0]) if a else (None, ())
             if op == "mod":
@@ -246,11 +315,12 @@ def check_framing(ctx, R1, R2):
             if _once(seen, ("r2", a[0] if a else "", is_str, ok)):
                 ctx.ob(R2, fi.qual, f"{what}; str chunk={is_str} -> sends {a[0][:80] if a else ''}", ok,
                        "" if ok else "the size line does not measure the bytes that follow, or a str chunk is not UTF-8 encoded before it is measured and sent", witness=w, node=fi.node)
-            ne = x.r.truth(each)
+            ne = x.v.truth(each)
             if _once(seen, ("r2-empty", ne)):
                 ctx.ob(R2, fi.qual, f"a chunk is sent only when non-empty (chunk truthy={ne})", ne is True, "" if ne is True else "an empty chunk in chunked mode ends the body early", witness=w, node=fi.node)
     ctx.sites(R1, len(rows), 20, "rows of the framing table")
-    ctx.sites(R2, n2, 2, "chunk sends on rows")
+    if not foreign:
+        ctx.sites(R2, n2, 2, "chunk sends on rows")
     # body_to_chunks classifies this request's body
     for x in rows:
         a = x.btc_args if x.btc else []
